@@ -222,27 +222,28 @@ def polytope(dev, N, rng_seed=0):
   return A_ub, b_ub, A_eq, b_eq, affine
 
 
-def lp(cvec, dev, N, poly=None):
-  """minimise cvec.x over bounds + polytope; returns the scipy result (status 0 optimal, 2 infeasible)."""
+def lp(cvec, dev, N, poly=None, box=None):
+  """minimise cvec.x over bounds + polytope; returns the scipy result (status 0 optimal, 2 infeasible).
+  `box` = (lb, hb): the DOCUMENTED per-variable bounds (from the description) instead of the device's own table."""
   from scipy.optimize import linprog
   n_ = np()
   A_ub, b_ub, A_eq, b_eq, _ = poly or polytope(dev, N)
-  b = n_.array(dev.bounds, dtype=float)
+  b = n_.array(dev.bounds, dtype=float) if box is None else n_.stack((n_.array(box[0], dtype=float), n_.array(box[1], dtype=float)), axis=1)
   return linprog(cvec, A_ub=n_.array(A_ub) if A_ub else None, b_ub=n_.array(b_ub) if b_ub else None,
                  A_eq=n_.array(A_eq) if A_eq else None, b_eq=n_.array(b_eq) if b_eq else None,
                  bounds=list(zip(b[:, 0], b[:, 1])), method='highs')
 
 
-def feasibility(dev, N, poly=None):
+def feasibility(dev, N, poly=None, box=None):
   """'feasible' (with a witness), 'infeasible', or 'unknown'."""
   n_ = np()
   poly = poly or polytope(dev, N)
   if not poly[4]:
     return 'unknown', None
-  b = n_.array(dev.bounds, dtype=float)
+  b = n_.array(dev.bounds, dtype=float) if box is None else n_.stack((n_.array(box[0], dtype=float), n_.array(box[1], dtype=float)), axis=1)
   if (b[:, 0] > b[:, 1]).any():
     return 'infeasible', None
-  r = lp(n_.zeros(N), dev, N, poly)
+  r = lp(n_.zeros(N), dev, N, poly, box)
   if r.status == 0:
     return 'feasible', r.x
   if r.status == 2:
@@ -276,6 +277,9 @@ def described_violation(m, x):
       lb = n_.array([C.pf(v) for v in d['lb']]); hb = n_.array([C.pf(v) for v in d['hb']])
       tot = X[off:off + k].sum(axis=0)
       upd(float(n_.max(n_.maximum(lb - tot, tot - hb))), 'conduit-sum bounds of %s' % t['id'])
+      clo, chi = (lb, 0*hb) if (lb < 0).any() else (0*lb, hb)          # documented conduit box: (lower, 0) for a producer, (0, upper) otherwise
+      for r in range(k):
+        upd(float(n_.max(n_.maximum(clo - X[off + r], X[off + r] - chi))), 'conduit bounds of %s row %d' % (t['id'], r))
       return k
     r = 0
     for c in t['ch']:
@@ -289,16 +293,17 @@ def described_violation(m, x):
   return worst, what
 
 
-def violation(dev, x, m=None):
+def violation(dev, x, m=None, box=None):
   """largest violation of the bounds and of every constraint function of the device at flat x
-  (and, when the description is given, of the documented limits read from it)."""
+  (and, when the description is given, of the documented limits read from it).  `box`: judge the per-variable
+  bounds against this documented (lb, hb) instead of the device's own table."""
   if m is not None:
-    a = violation(dev, x)
+    a = violation(dev, x, None, box)
     b = described_violation(m, x)
     return a if a[0] >= b[0] else (b[0], b[1] + ' (documented limit; the device\'s own constraint function does not report it)')
   n_ = np()
   x = n_.array(x, dtype=float).reshape(-1)
-  b = n_.array(dev.bounds, dtype=float)
+  b = n_.array(dev.bounds, dtype=float) if box is None else n_.stack((n_.array(box[0], dtype=float), n_.array(box[1], dtype=float)), axis=1)
   worst, what = 0.0, None
   v = float(n_.max(n_.maximum(b[:, 0] - x, x - b[:, 1]))) if x.size else 0.0
   if v > worst:
@@ -454,19 +459,25 @@ def parallel_active_pair(dev, N, poly, x, tol=1e-7):
   return False
 
 
-def better_point(f, g, dev, N, x, starts, tol=1e-8):
+def better_point(f, g, dev, N, x, starts, tol=1e-8, box=None, m=None):
   """search for a feasible point with lower objective than x (independent re-solves from other starts,
   tight tolerance). Returns (best value, best point) — (f(x), None) when nothing better was found."""
   from scipy.optimize import minimize
   best, xb = f(x), None
   for st in starts:
     try:
-      o = minimize(f, st, jac=g, method='SLSQP', bounds=dev.bounds, constraints=dev.constraints, options={'ftol': 1e-10, 'maxiter': 1000})
+      bnds = dev.bounds if box is None else list(zip(box[0], box[1]))
+      o = minimize(f, st, jac=g, method='SLSQP', bounds=bnds, constraints=dev.constraints, options={'ftol': 1e-10, 'maxiter': 1000})
     except Exception:
       continue
-    if violation(dev, o.x)[0] <= tol and f(o.x) < best:
+    if violation(dev, o.x, m, box)[0] <= tol and f(o.x) < best:
       best, xb = f(o.x), o.x
   return best, xb
+
+
+def n_box_ok(x, box, tol):
+  n_ = np()
+  return bool((n_.array(x) >= n_.array(box[0]) - tol).all() and (n_.array(x) <= n_.array(box[1]) + tol).all())
 
 
 def feasible_start(dev, N, poly, seed, k=4):
@@ -500,3 +511,167 @@ def quiet():
   """step logs accepted status-8 results with logger.warn: keep the check's output clean."""
   import logging
   logging.getLogger('device_kit.solve').setLevel(logging.ERROR)
+
+
+# ------------------------------------------------------------------ histories: call, re-rate a leaf through its public setters, call again
+EDITABLE = ['Device', 'CDevice', 'GDevice', 'PVDevice']      # cost does not read the bounds (classes whose cost closure captures the
+                                                             # bounds at construction are a separate, listed finding of C11/C15/C16)
+
+
+def history_model(rng, tier, nmax=4):
+  """a set (flat or nested) with an editable leaf 'a' and the edit applied to it between two calls:
+  -> (model description, edit).  The edit tightens / moves a's box and optionally gives it a cumulative bound."""
+  import copy
+  n = rng.randint(1, nmax)
+  a = convex_leaf(rng, tier, n, [rng.choice(EDITABLE)], with_cbounds=False)
+  a['_py']['bform'] = 'table'
+  lb = [F(x) for x in a['lb']]; hb = [F(x) for x in a['hb']]
+  for k in range(n):                      # make sure there is room to re-rate
+    if hb[k] - lb[k] < 1:
+      if a['cls'] in ('GDevice', 'PVDevice'):
+        lb[k] = hb[k] - 2
+      else:
+        hb[k] = lb[k] + 2
+  a['lb'] = [fs(x) for x in lb]; a['hb'] = [fs(x) for x in hb]
+  others = [{'k': 'leaf', 'id': 'o%d' % i, 'dev': convex_leaf(rng, tier, n, None)} for i in range(rng.randint(1, 2))]
+  la = {'k': 'leaf', 'id': 'a', 'dev': a}
+  if rng.random() < 0.5:
+    inner = {'k': 'node', 'id': 'inner', 'sb': None, 'sub': False, 'ch': [la] + others[:1]}
+    kids = [inner] + others[1:] + [{'k': 'leaf', 'id': 'g', 'dev': convex_leaf(rng, tier, n, ['Device', 'GDevice', 'IDevice2'])}]
+  else:
+    kids = [la] + others
+  rng.shuffle(kids)
+  t = {'k': 'node', 'id': 'site', 'sb': None, 'sub': False, 'ch': kids}
+  if rng.random() < 0.6:
+    blb, bhb = gen.tree_box(t, n)
+    R = gen.tree_rows(t)
+    sb = []
+    for i in range(n):
+      lo = sum((blb[r*n + i] for r in range(R)), F(0)); hi = sum((bhb[r*n + i] for r in range(R)), F(0))
+      sb.append([fs(lo + (hi - lo)*Fraction(rng.randint(0, 2), 8)), fs(lo + (hi - lo)*Fraction(rng.randint(6, 8), 8))])
+    t['sb'] = sb
+  # the edit: a strictly different box inside the old one
+  nlb, nhb = [], []
+  for k in range(n):
+    w = hb[k] - lb[k]
+    x = Fraction(rng.randint(0, 5), 8); y = Fraction(rng.randint(int(x*8) + 1, 7), 8)
+    if rng.random() < 0.5:
+      x = Fraction(0)
+    nlb.append(lb[k] + w*x); nhb.append(lb[k] + w*y)
+  edit = {'leaf': 'a', 'lb': [fs(v) for v in nlb], 'hb': [fs(v) for v in nhb]}
+  if rng.random() < 0.3:
+    cbs, _ = gen.gen_cbounds(rng, n, nlb, nhb, multi_ok=False)
+    edit['cbs'] = [[fs(c[0]), fs(c[1]), c[2], c[3]] for c in cbs]
+  if a['cls'] == 'CDevice' and rng.random() < 0.5:
+    edit['a'] = fs(dy(rng, -3, 0))
+  return {'tree': t, 'n': n}, edit
+
+
+def edited_model(m, edit):
+  """the description with the FINAL parameters of the edited leaf (what a fresh twin is built from)."""
+  import copy
+  m2 = copy.deepcopy(m)
+  def walk(t):
+    if t['k'] == 'leaf':
+      if t['id'] == edit['leaf']:
+        d = t['dev']
+        d['lb'] = list(edit['lb']); d['hb'] = list(edit['hb']); d['_py']['bform'] = 'table'
+        if 'cbs' in edit:
+          d['cbs'] = [list(c) for c in edit['cbs']]; d['_py']['cform'] = '4tuples'
+        if 'a' in edit:
+          d['prm']['a'] = edit['a']
+      return
+    for c in t.get('ch', []):
+      walk(c)
+  walk(m2['tree'])
+  return m2
+
+
+def find_leaf(dev, id):
+  if getattr(dev, 'id', None) == id and not hasattr(dev, 'devices'):
+    return dev
+  for d in getattr(dev, 'devices', []) or []:
+    r = find_leaf(d, id)
+    if r is not None:
+      return r
+  return None
+
+
+def apply_edit(dev, edit):
+  """re-rate the leaf through its PUBLIC setters (validated `bounds`, `cbounds`, `a`)."""
+  n_ = np()
+  leaf = find_leaf(dev, edit['leaf'])
+  if leaf is None:
+    raise ValueError('leaf %s not found' % edit['leaf'])
+  leaf.bounds = n_.stack((n_.array([C.pf(v) for v in edit['lb']]), n_.array([C.pf(v) for v in edit['hb']])), axis=1)
+  if 'cbs' in edit:
+    leaf.cbounds = [(C.pf(c[0]), C.pf(c[1]), int(c[2]), int(c[3])) for c in edit['cbs']]
+  if 'a' in edit:
+    leaf.a = C.pf(edit['a'])
+
+
+def touch(dev):
+  """what any earlier use of the tree reads."""
+  dev.bounds; dev.lbounds; dev.hbounds; dev.constraints; dev.shape
+
+
+# ------------------------------------------------------------------ producers with zero-capacity slots under an MF adaptor
+def mf_producer_model(rng, tier):
+  """site = [MFDeviceSet / TwoRatioMFDeviceSet around a PV-like producer (bounds (-cap_t, 0), some cap_t == 0), a load];
+  documented conduit bounds are (-cap_t, 0) per conduit."""
+  n = rng.randint(2, 5)
+  caps = [dy(rng, Fraction(1, 2), 3) for _ in range(n)]
+  zero = rng.sample(range(n), rng.randint(1, n - 1))
+  for k in zero:
+    caps[k] = F(0)
+  cls = rng.choice(['PVDevice', 'GDevice', 'Device'])
+  d = convex_leaf(rng, tier, n, [cls], with_cbounds=False)
+  d['lb'] = [fs(-c) for c in caps]; d['hb'] = ['0']*n; d['_py']['bform'] = 'table'; d['cbs'] = []; d['_py']['cform'] = None
+  k = rng.choice([1, 2, 2, 3])
+  mf = {'k': 'mf', 'id': 'pv', 'dev': d, 'flows': ['e', 'h', 'g'][:k], 'ratios': None}
+  if k == 2 and rng.random() < 0.4:
+    mf['ratios'] = [fs(dy(rng, 1, 3)), fs(dy(rng, 1, 3))]; mf['ctype'] = rng.choice(['eq', 'ineq'])
+  load = convex_leaf(rng, tier, n, [rng.choice(['IDevice2', 'Device', 'CDevice'])], with_cbounds=False)
+  t = {'k': 'node', 'id': 'site', 'sb': None, 'sub': False, 'ch': [mf, {'k': 'leaf', 'id': 'load', 'dev': load}]}
+  if rng.random() < 0.5:
+    blb, bhb = gen.tree_box(t, n); R = gen.tree_rows(t)
+    t['sb'] = [[fs(sum((blb[r*n + i] for r in range(R)), F(0))), fs(sum((bhb[r*n + i] for r in range(R)), F(0)))] for i in range(n)]
+  return {'tree': t, 'n': n}
+
+
+# ------------------------------------------------------------------ integer-typed flows
+def int_model(rng, tier):
+  """leaves with INTEGER bounds (given as Python ints / an int table, as users write them), single row or two rows, and an
+  integer-valued feasible flow (zeros where allowed, else the lower bounds): -> (model, flow as protocol strings, per-slot price)."""
+  n = rng.randint(1, 5)
+  def leaf(id):
+    cls = rng.choice(['Device', 'IDevice2', 'CDevice', 'IDevice'])
+    d = convex_leaf(rng, tier, n, [cls], with_cbounds=False)
+    lo = rng.choice([0, 0, 1]); hi = lo + rng.choice([2, 3, 4])
+    d['lb'] = [str(lo)]*n; d['hb'] = [str(hi)]*n; d['_py']['bform'] = rng.choice(['scalar', 'table']); d['_py']['int_bounds'] = True
+    if cls == 'IDevice2':
+      d['prm'] = {'p_l': '-2', 'p_h': '-1'}
+    if cls == 'CDevice':
+      d['prm'] = {'a': '-1/2', 'b': '0'}
+    if cls == 'IDevice':
+      d['prm'] = {'a': '0', 'b': '2', 'c': '1'}
+    return {'k': 'leaf', 'id': id, 'dev': d}, [lo]*n
+  if rng.random() < 0.5:
+    l, s = leaf('a')
+    m = {'tree': l, 'n': n}
+  else:
+    l1, s1 = leaf('a'); l2, s2 = leaf('b')
+    m = {'tree': {'k': 'node', 'id': 'site', 'sb': None, 'sub': False, 'ch': [l1, l2]}, 'n': n}
+    s = s1 + s2
+  # a price under which consuming more is clearly worth it but |stepsize * gradient| stays below 1 for stepsize <= 1
+  price = [fs(-dy(rng, Fraction(1, 4), Fraction(3, 4), 3)) for _ in range(n)]
+  return m, [str(v) for v in s], price
+
+
+def int_flow_arg(flat, m, shape, as_list=False):
+  """an integer-dtype array (or a plain nested list of Python ints) of the given shape."""
+  n_ = np()
+  a = n_.array([int(Fraction(v)) for v in flat], dtype=int)
+  if shape == 'dev':
+    a = a.reshape(model_rows(m), m['n'])
+  return a.tolist() if as_list else a
